@@ -55,6 +55,19 @@ PROPS = {
             "the default-timestamp use (shadow capture) has a default strictly greater than every stored timestamp",
         ],
     },
+    "C06": {
+        "level": "exploration",
+        "tests": [
+            T("TestC06Image", "fleet", 400, 48000, shards=16, qshards=4),
+            T("TestC06Concurrent", "fleet", 150, 32000, shards=16, qshards=2, procs=4),
+        ],
+        "assumptions": [
+            "the reference codec decodes the uploaded blob; byte equality with a re-marshal is not demanded (the streaming encoder writes fields in another order)",
+            "shadow mode: the snapshot is compared with the shadow DBIs read right after the call; that the shadow DBIs mirror the application DBIs is C11",
+            "dupsort contents use a separator-free alphabet so that the hack can map them (refusals are C20)",
+            "shadow-mode concurrent writers cannot commit inside the dump transaction (it holds the write lock): they run freely",
+        ],
+    },
     "C07": {
         "level": "exploration",
         "tests": [
